@@ -35,17 +35,18 @@ pub enum Pinned {
     ClientKey,
 }
 
-/// Does the library use this scripted value as it stands? Always true for ordinary values. For a degenerate one
-/// (all 32 bytes equal) the answer is probed once per process: the drawing call is run with the value scripted and
-/// with an ordinary control value; if the library draws MORE often for the degenerate value than for the control,
-/// it refused the value and drew again, and cases that pin it are skipped (counted in NOT_OWNED), not judged.
+/// Does the library use this scripted value as it stands? Probed once per value and process: the drawing call is run
+/// with the value scripted and with ordinary control values; if the library draws MORE often for the value than for
+/// the controls, it refused the value and drew again, and cases that pin it are skipped (counted in NOT_OWNED), not
+/// judged. (On the unchanged tree every value is taken as it stands.)
 pub fn taken_as_is(kind: Pinned, v: &[u8; 32]) -> bool {
-    if !v.iter().all(|b| *b == v[0]) {
-        return true;
-    }
-    static MEMO: std::sync::Mutex<Vec<(Pinned, [u8; 32], bool)>> = std::sync::Mutex::new(Vec::new());
-    if let Some(e) = MEMO.lock().unwrap().iter().find(|e| e.0 == kind && e.1 == *v) {
-        return e.2;
+    // every value is probed (once): a library may also refuse values that do not look degenerate to the eye
+    // (a private key of 1, a private key >= N, ...) - none of the properties obliges it to use a draw as it stands
+    static MEMO: std::sync::RwLock<Option<std::collections::HashMap<(Pinned, [u8; 32]), bool>>> = std::sync::RwLock::new(None);
+    if let Some(m) = MEMO.read().unwrap().as_ref() {
+        if let Some(e) = m.get(&(kind, *v)) {
+            return *e;
+        }
     }
     let draws = |val: &[u8; 32]| -> usize {
         let mut script = val.to_vec();
@@ -77,9 +78,28 @@ pub fn taken_as_is(kind: Pinned, v: &[u8; 32]) -> bool {
         };
         log.len()
     };
-    let control = ctr_array::<32>(77, "probe-control");
-    let as_is = draws(v) <= draws(&control);
-    MEMO.lock().unwrap().push((kind, *v, as_is));
+    // the control is an ordinary value below 2^248 (so below N): its draw count is what an accepted value costs;
+    // should even the control be re-drawn, the minimum over a few controls is taken
+    static CONTROL_DRAWS: std::sync::Mutex<[Option<usize>; 3]> = std::sync::Mutex::new([None; 3]);
+    let ki = kind as usize;
+    let cached = CONTROL_DRAWS.lock().unwrap()[ki];
+    let control_draws = match cached {
+        Some(c) => c,
+        None => {
+            let c = (0..4)
+                .map(|i| {
+                    let mut c = ctr_array::<32>(77, &format!("probe-control-{i}"));
+                    c[31] = 0;
+                    draws(&c)
+                })
+                .min()
+                .unwrap();
+            CONTROL_DRAWS.lock().unwrap()[ki] = Some(c);
+            c
+        }
+    };
+    let as_is = draws(v) <= control_draws;
+    MEMO.write().unwrap().get_or_insert_with(Default::default).insert((kind, *v), as_is);
     as_is
 }
 
